@@ -1,16 +1,21 @@
-import Nstd.Variant.DeepAccess
+import Nstd.Variant.Props
 import Nstd.Variant.PropsGen
 /-
-  Property C07, tie by translation, the nested walk: `walkMutT` is the deep model's `walkMut` with every accessor step
+  Property C07, tie by translation, the nested walk.  `walkMutT` is the deep model's `walkMut` with every accessor step
   (`x.toMap()` / `x.toList()` / `x.toArray()` on the way down a path) replaced by the TRANSLATED body of that accessor
-  (`Nstd.Generated.VariantRep.to*Mut`, run on an object standing for the cell).  `accessCellT_eq` : one translated step is the
-  model's `accessCell` on a live cell; `held_live` : the cells the refinement proof holds (`Held`, DeepAccess.lean) are live;
-  `walkMutT_eq_partial` : the translated walk equals the model walk when every cell the walk reaches is live (`WalkLive`).
-
-  OPEN: `WalkLive` follows from the invariant of the deep model (`DGood`; the proof of `walk_step` in DeepWalk.lean establishes
-  `Held` for the element cell at every level, and `held_live` turns that into `Live`), but that derivation is inside the induction of
-  `walk_step` and has not been restated here; so `deep_refines` / `deep_independent` are NOT yet restated over `walkMutT`:
-      theorem deep_refines_translated : … the driver loop with `walkMutT` in place of `walkMut` refines the store of values …
+  (`Nstd.Generated.VariantRep.to*Mut`, run on an object standing for the cell).
+    * `accessCellT_eq` : one translated step is the model's `accessCell` on a live cell; `held_live` : the cells the refinement
+      proof holds (`Held`, DeepAccess.lean) are live; `walkMutT_eq` : the translated walk equals the model walk when every cell
+      the walk reaches is live (`WalkLive`).
+    * `walk_live` : `WalkLive` FOLLOWS FROM THE INVARIANT — the `Held` facts that `walk_step` (DeepWalk.lean) establishes for the
+      element cell at every level, restated outside its induction (root cell held, path exists in its value, enough fuel).
+    * `dstepT`, `drunT`, `ddriveT` : operation step and driver loops over `walkMutT`; `dstepT_eq` : on every state related to a
+      store and every accepted line `dstepT = dstep`; hence `drunT_eq`, `ddriveT_eq`, and the headline theorems restated:
+      `deep_refines_translated`, `deep_driver_refines_translated`, `deep_independent_translated`,
+      `deep_independent_run_translated` — the statements of C07 with the translated accessor at every level of every nested walk.
+  What the walk still takes from the hand-written model: the container operations at the leaf (`leafOp`: List/Array/HashMap members,
+  not in Variant.hpp; its Variant.hpp parts — `set`, `clear`, `touch`, `assign` — are tied one by one in PropsGen.lean:
+  `gen_set_scalar_leaf`, `gen_clear_leaf`, `gen_touch_leaf`, `gen_assignFrom`) and the slot bookkeeping of the walk itself.
 -/
 set_option linter.unusedSimpArgs false
 set_option linter.unusedVariables false
@@ -79,9 +84,8 @@ def WalkLive (f : Nat) (ds : DblSem) (s : Heap) (c : Cell) : List Step → Prop
   | st :: p => Live s c ∧ ∀ s1 b blk ci, accessCell (f + 1) ds s c st.kind = some (s1, .ptr b) → s1.heap b = some blk →
       blk.pay.getCell st = some ci → WalkLive f ds (setPay s1 b (blk.pay.setCell st .null)) ci p
 
-/-- the walk over the translated accessors is the model's walk, on every path whose cells are live (what is left: to derive
-    `WalkLive` from `DGood`; see the OPEN block at the top) -/
-theorem walkMutT_eq_partial (f : Nat) (ds : DblSem) (rd : Nat → Cell) (lf : LeafS) :
+/-- the walk over the translated accessors is the model's walk, on every path whose cells are live (`walk_live` derives that from the invariant) -/
+theorem walkMutT_eq (f : Nat) (ds : DblSem) (rd : Nat → Cell) (lf : LeafS) :
     ∀ (p : List Step) (s : Heap) (c : Cell), WalkLive f ds s c p → walkMutT f ds rd s c p lf = walkMut (f + 1) ds rd s c p lf := by
   intro p
   induction p with
@@ -114,6 +118,271 @@ theorem walkMutT_eq_partial (f : Nat) (ds : DblSem) (rd : Nat → Cell) (lf : Le
               obtain ⟨s2, ci'⟩ := r
               simp only []
               cases s2.heap b <;> rfl
+
+
+/-! ### `WalkLive` from the invariant: the `Held` facts of `walk_step`, outside its induction -/
+
+theorem updPath_exists {F : Val → Option Val} : ∀ (p : List Step) (x y : Val), updPath p F x = some y → ∃ y', updPath p some x = some y'
+  | [], x, _, _ => ⟨x, rfl⟩
+  | st :: p, x, y, h => by
+    obtain ⟨xi, yi, hgx, hux, hyv⟩ := Deep.updPath_cons_decomp h
+    obtain ⟨y'', hy''⟩ := updPath_exists p xi yi hux
+    cases st with
+    | li i =>
+      cases x <;> simp [updPath, getPath, Val.asList] at hgx h ⊢
+      rename_i l
+      cases hl : l[i]? with
+      | none => simp [hl] at hgx
+      | some z => simp [hl] at hgx; subst hgx; simp [hy'']
+    | ar i =>
+      cases x <;> simp [updPath, getPath, Val.asArray] at hgx h ⊢
+      rename_i l
+      cases hl : l[i]? with
+      | none => simp [hl] at hgx
+      | some z => simp [hl] at hgx; subst hgx; simp [hy'']
+    | mk k =>
+      cases x <;> simp [updPath, getPath, Val.asMap] at hgx h ⊢
+      rename_i m
+      cases hl : mapFind m k with
+      | none => simp [hl] at hgx
+      | some z => simp [hl] at hgx; subst hgx; simp [hy'']
+
+/-- every cell a nested walk reaches is live: the part of `walk_step` (DeepWalk.lean) that establishes `Held` for the element cell
+    at every level, restated on its own.  Hypotheses: the root cell is held, the path exists in its value, enough fuel. -/
+theorem walk_live (ds : DblSem) {vars : Nat → Cell} :
+    ∀ (p : List Step) (h : Heap) (e : Nat → Nat) (g : Nat → Val) (c : Cell), Held h vars e g c → ∀ y,
+      updPath p some (absCell g c) = some y →
+      ∀ f, liveCount h + p.length + 1 < f + 1 → WalkLive f ds h c p := by
+  intro p
+  induction p with
+  | nil => intro h e g c hd y hy f hf; trivial
+  | cons st p ih =>
+    intro h e g c hd y hy f hf
+    have i := hd.inv
+    obtain ⟨xi, yi, hgx, hux, hyv⟩ := Deep.updPath_cons_decomp hy
+    obtain ⟨hty, _⟩ := updPath_cons hy
+    obtain ⟨h1, b, g1, r1, a⟩ := dinv_access ds hd st.kind (step_isKind st) (f + 1) (by simp at hf; omega)
+    obtain ⟨blk, hb, href⟩ := a.blk
+    have i1 := a.inv
+    have hb1 := bounded_of_dinv i1
+    have hx1 : g1 b = absCell g c := by rw [a.val]; exact coerce_same ds _ _ (step_isKind st) hty
+    have hcons1 := i1.cons b blk hb
+    have hgc := getCell_abs g1 blk.pay st
+    rw [← hcons1, hx1, hgx] at hgc
+    refine ⟨held_live hd, ?_⟩
+    intro s1 b' blk' ci ha hb' hci
+    rw [r1] at ha
+    injection ha with ha
+    injection ha with e1 e2
+    injection e2 with e3
+    subst e1; subst e3
+    rw [hb] at hb'; injection hb' with e4; subst e4
+    rw [hci] at hgc
+    have hxi : absCell g1 ci = xi := (Option.some.inj hgc).symm
+    have hcim := mem_cells_of_getCell _ _ _ hci
+    have hold_b : cntCells blk.pay.cells b = 0 := by have := cnt_le_stored h1 hb1 b blk hb b; have := a.sz; omega
+    have hci_b : cellCnt ci b = 0 := by have := cellCnt_le_of_mem _ ci b hcim; omega
+    have hcs := fun x => cnt_setCell blk.pay st .null ci x hci
+    have hnew_b : cntCells (blk.pay.setCell st .null).cells b = 0 := by have := hcs b; simp at this; omega
+    have i1' := dinv_setPay i1 b blk hb a.hz a.sz (blk.pay.setCell st .null)
+      (by
+        intro d hdm
+        rcases mem_setCell _ _ _ _ hdm with hdm | hdm
+        · exact stored_cells_ok i1 b blk hb d hdm
+        · subst hdm; exact ⟨(by intro z hz; cases hz), (by intro t ht; cases ht)⟩)
+      (by intro x; have := hcs x; simp at this; omega) hnew_b
+    let e1 : Nat → Nat := fun x => e x - cellCnt c x + cellCnt (.ptr b) x
+    have i1'' : DInv (setPay h1 b (blk.pay.setCell st .null)) vars (fun x => e1 x + cellCnt ci x)
+        (upd g1 b (absPay g1 (blk.pay.setCell st .null))) :=
+      i1'.congr (by intro x; have := hcs x; simp at this; show e1 x + _ - _ = _; omega)
+    have hd' : Held (setPay h1 b (blk.pay.setCell st .null)) vars (fun x => e1 x + cellCnt ci x)
+        (upd g1 b (absPay g1 (blk.pay.setCell st .null))) ci :=
+      ⟨i1'', fun x => Nat.le_add_left _ _, (stored_cells_ok i1 b blk hb ci hcim).1⟩
+    have hxi' : absCell (upd g1 b (absPay g1 (blk.pay.setCell st .null))) ci = xi := by
+      rw [← hxi]; apply absCell_congr; intro t ht
+      have : t ≠ b := by intro et; subst et; rw [ht] at hci_b; simp [cellCnt_ptr] at hci_b
+      exact upd_other _ _ _ _ this
+    have hl1' : liveCount (setPay h1 b (blk.pay.setCell st .null)) = liveCount h1 := liveCount_setPay _ _ _
+    exact ih _ _ _ ci hd' yi (by rw [hxi']; exact hux) f (by rw [hl1']; have := a.live; simp at hf; omega)
+
+
+/-! ### the operation step, the driver loop and the headline theorems over the translated accessors -/
+
+/-- `selfTempStep` with the translated accessors in the walk -/
+def selfTempStepT (f : Nat) (ds : DblSem) (s : DState) (v : Nat) (p : List Step) (e : ValS) : Option DState :=
+  match walkMutT f ds (upd s.vars tmpVar (copyCell s.h (s.vars v)).2) (copyCell s.h (s.vars v)).1 (s.vars v) p
+      (.set (e.redirect v tmpVar)) with
+  | some (h2, c') => (release (f + 1) h2 (copyCell s.h (s.vars v)).2).map (fun h3 => { h := h3, vars := upd s.vars v c' })
+  | none => none
+
+/-- `dstep` with every accessor step of a nested mutable walk (`mut v <path> <leaf>`) run as the TRANSLATED body of
+    `toMap()/toList()/toArray()` (`walkMutT`); everything else as in `dstep` -/
+def dstepT (ds : DblSem) (s : DState) (op : Op) : Option DState :=
+  match op with
+  | .mut v p lf =>
+    (match p, lf with
+     | [], .assign (.var w) => dstep ds s (.mut v [] (.assign (.var w)))
+     | p, lf =>
+       if selfTemp v p lf then
+         (match lf with
+          | .set e => selfTempStepT (s.h.next + allocBound (.mut v p lf)) ds s v p e
+          | _ => none)
+       else (walkMutT (s.h.next + allocBound (.mut v p lf)) ds s.vars s.h (s.vars v) p lf).map
+         (fun r => { h := r.1, vars := upd s.vars v r.2 }))
+  | op => dstep ds s op
+
+/-- on every state related to a store and every accepted line the step over the translated accessors IS the model's step:
+    `WalkLive` comes from the invariant (`walk_live`) -/
+theorem dstepT_eq (ds : DblSem) {s : DState} {σ σ' : Store} (hg : DGood s σ) (op : Op) (hspec : specStep ds σ op = some σ') :
+    dstepT ds s op = dstep ds s op := by
+  cases op with
+  | new v e => rfl
+  | copy v w => rfl
+  | get v w p => rfl
+  | swap v w => rfl
+  | «mut» v p lf =>
+    obtain ⟨g, i, hrel, htmp⟩ := hg
+    simp only [specStep] at hspec
+    split at hspec
+    · rename_i hc
+      obtain ⟨hv, hall, hmok⟩ := hc
+      split at hspec
+      · cases hspec
+      · cases hy : updPath p ((lf.eval σ).apply ds) (σ v) with
+        | none => simp [hy] at hspec
+        | some y =>
+          have hv7 := lt_slots hv
+          obtain ⟨y', hy'⟩ := updPath_exists p (σ v) y hy
+          rw [← hrel v hv] at hy'
+          have hlc := liveCount_le_next s.h
+          -- the walk from the variable's cell
+          have hwl1 : WalkLive (s.h.next + allocBound (.mut v p lf)) ds s.h (s.vars v) p :=
+            walk_live ds p s.h _ g (s.vars v) (held_take i v hv7) y' hy' _ (by simp only [allocBound]; omega)
+          -- the walk with a copy of v in the spare slot (typed assignment of a temporary that holds v)
+          have hwl2 : WalkLive (s.h.next + allocBound (.mut v p lf)) ds (copyCell s.h (s.vars v)).1 (s.vars v) p := by
+            have ht7 : tmpVar < nslots := by simp [tmpVar, nslots]
+            have hvt : v ≠ tmpVar := by simp [nvars, tmpVar] at *; omega
+            obtain ⟨i1, a1, _, sl1, _, _, o1⟩ := dinv_copyCell i (s.vars v) (var_cellOk i v)
+            have i1' : DInv (copyCell s.h (s.vars v)).1 (upd s.vars tmpVar (copyCell s.h (s.vars v)).2) zeroE g :=
+              (dinv_put i1 tmpVar ht7 (by rw [htmp]; intro b hb; cases hb) _ (by intro x; show _ ≤ zeroE x + _; omega) o1).congr
+                (by intro x; show zeroE x + cellCnt _ x - cellCnt _ x = zeroE x; omega)
+            have hv1 : upd s.vars tmpVar (copyCell s.h (s.vars v)).2 v = s.vars v := upd_other _ _ _ _ hvt
+            have hd := held_take i1' v hv7
+            rw [hv1] at hd
+            have hl1 : liveCount (copyCell s.h (s.vars v)).1 = liveCount s.h := liveCount_sameLive sl1
+            exact walk_live ds p _ _ g (s.vars v) hd y' hy' _ (by rw [hl1]; simp only [allocBound]; omega)
+          have e1 := fun rd lf' => walkMutT_eq (s.h.next + allocBound (.mut v p lf)) ds rd lf' p s.h (s.vars v) hwl1
+          have e2 := fun rd lf' => walkMutT_eq (s.h.next + allocBound (.mut v p lf)) ds rd lf' p _ (s.vars v) hwl2
+          cases p with
+          | cons st p' =>
+            cases lf with
+            | set e0 =>
+              simp only [dstepT, dstep, selfTempStepT, selfTempStep, e1, e2]
+              congr 1
+            | _ => simp only [dstepT, dstep, selfTempStepT, selfTempStep, e1, e2]
+          | nil =>
+            cases lf with
+            | assign src => cases src <;> simp only [dstepT, dstep, selfTempStepT, selfTempStep, e1, e2]
+            | set e0 =>
+              simp only [dstepT, dstep, selfTempStepT, selfTempStep, e1, e2]
+              congr 1
+            | _ => simp only [dstepT, dstep, selfTempStepT, selfTempStep, e1, e2]
+    · cases hspec
+
+
+/-- `drun` over the translated accessors -/
+def drunT (ds : DblSem) : DState → Store → List Op → Option (DState × Store)
+  | s, σ, [] => some (s, σ)
+  | s, σ, op :: t =>
+    match specStep ds σ op with
+    | none => drunT ds s σ t
+    | some σ' =>
+      (match dstepT ds s op with
+       | some s' => drunT ds s' σ' t
+       | none => none)
+
+/-- the loop of the driver over the translated accessors -/
+def ddriveT (ds : DblSem) : DState → List Op → Option DState
+  | s, [] => some s
+  | s, op :: t =>
+    match specStep ds s.read op with
+    | none => ddriveT ds s t
+    | some _ =>
+      (match dstepT ds s op with
+       | some s' => ddriveT ds s' t
+       | none => none)
+
+theorem drunT_eq (ds : DblSem) : ∀ (ops : List Op) (s : DState) (σ : Store), DGood s σ → (∀ op ∈ ops, OpSup op) →
+    drunT ds s σ ops = drun ds s σ ops := by
+  intro ops
+  induction ops with
+  | nil => intro s σ _ _; rfl
+  | cons op t ih =>
+    intro s σ hg hsup
+    have hop : OpSup op := hsup op (by simp)
+    have ht : ∀ o ∈ t, OpSup o := fun o ho => hsup o (by simp [ho])
+    cases hspec : specStep ds σ op with
+    | none => simp only [drunT, drun, hspec]; exact ih s σ hg ht
+    | some σ' =>
+      obtain ⟨s1, r1, g1⟩ := dstep_refines ds hg op hop hspec
+      simp only [drunT, drun, hspec, dstepT_eq ds hg op hspec, r1]
+      exact ih s1 σ' g1 ht
+
+theorem ddriveT_eq (ds : DblSem) : ∀ (ops : List Op) (s : DState) (σ : Store), DGood s σ → (∀ op ∈ ops, OpSup op) →
+    ddriveT ds s ops = ddrive ds s ops := by
+  intro ops
+  induction ops with
+  | nil => intro s σ _ _; rfl
+  | cons op t ih =>
+    intro s σ hg hsup
+    have hop : OpSup op := hsup op (by simp)
+    have ht : ∀ o ∈ t, OpSup o := fun o ho => hsup o (by simp [ho])
+    have hsame := specStep_isSome_congr ds s.read σ (fun v hv => read_exact hg v hv) op
+    cases hr : specStep ds s.read op with
+    | none => simp only [ddriveT, ddrive, hr]; exact ih s σ hg ht
+    | some x =>
+      obtain ⟨σ', hspec⟩ : ∃ σ', specStep ds σ op = some σ' := by
+        rw [hr] at hsame
+        cases h : specStep ds σ op with
+        | none => rw [h] at hsame; cases hsame
+        | some z => exact ⟨z, rfl⟩
+      obtain ⟨s1, r1, g1⟩ := dstep_refines ds hg op hop hspec
+      simp only [ddriveT, ddrive, hr, dstepT_eq ds hg op hspec, r1]
+      exact ih s1 σ' g1 ht
+
+/-- **HEADLINE over the translated accessors.**  `deep_refines` with every accessor step of every nested mutable walk run as the
+    body `tools/gen_variant.py` translated from the current Variant.hpp: for every history the model never faults, its state
+    is the specification store, and what it reads back from the heap is the specification's value. -/
+theorem deep_refines_translated (ds : DblSem) (ops : List Op) (hsup : ∀ op ∈ ops, Deep.OpSup op) :
+    ∃ s, drunT ds Deep.dinit Store.init ops = some (s, specRun ds Store.init ops) ∧
+      Deep.DGood s (specRun ds Store.init ops) ∧
+      ∀ v, v < nvars → ∀ f, sizeOf (specRun ds Store.init ops v) < f →
+        Deep.readCell f s.h (s.vars v) = specRun ds Store.init ops v := by
+  rw [drunT_eq ds ops Deep.dinit Store.init Deep.dgood_init hsup]
+  exact deep_refines ds ops hsup
+
+/-- the driver loop over the translated accessors never faults and ends reading as the store -/
+theorem deep_driver_refines_translated (ds : DblSem) (ops : List Op) (hsup : ∀ op ∈ ops, Deep.OpSup op) :
+    ∃ s, ddriveT ds Deep.dinit ops = some s ∧ ∀ v, v < nvars → s.read v = specRun ds Store.init ops v := by
+  rw [ddriveT_eq ds ops Deep.dinit Store.init Deep.dgood_init hsup]
+  exact deep_driver_refines ds ops hsup
+
+/-- independence over the translated accessors: after any history one more operation (any kind, any path, any sharing between the
+    variables and their nested elements) changes no variable outside its targets -/
+theorem deep_independent_translated (ds : DblSem) (ops : List Op) (op : Op) (hsup : ∀ o ∈ ops ++ [op], Deep.OpSup o)
+    (w : Nat) (hw : w < nvars) (hnt : w ∉ op.targets) :
+    ∃ s s', ddriveT ds Deep.dinit ops = some s ∧ ddriveT ds Deep.dinit (ops ++ [op]) = some s' ∧ s'.read w = s.read w := by
+  rw [ddriveT_eq ds ops Deep.dinit Store.init Deep.dgood_init (fun o ho => hsup o (by simp [ho])),
+    ddriveT_eq ds (ops ++ [op]) Deep.dinit Store.init Deep.dgood_init hsup]
+  exact deep_independent ds ops op hsup w hw hnt
+
+/-- …and over a whole tail of operations none of which targets `w` (a copy stays detached from its source) -/
+theorem deep_independent_run_translated (ds : DblSem) (pre post : List Op) (hsup : ∀ o ∈ pre ++ post, Deep.OpSup o)
+    (w : Nat) (hw : w < nvars) (hnt : ∀ op ∈ post, w ∉ op.targets) :
+    ∃ s s', ddriveT ds Deep.dinit pre = some s ∧ ddriveT ds Deep.dinit (pre ++ post) = some s' ∧ s'.read w = s.read w := by
+  rw [ddriveT_eq ds pre Deep.dinit Store.init Deep.dgood_init (fun o ho => hsup o (by simp [ho])),
+    ddriveT_eq ds (pre ++ post) Deep.dinit Store.init Deep.dgood_init hsup]
+  exact deep_independent_run ds pre post hsup w hw hnt
 
 /-- non-vacuity: a one-step walk from a live root -/
 example (ds : DblSem) : WalkLive 1 ds exHeap (.ptr 0) [.li 0] :=
